@@ -80,6 +80,8 @@ def strategy(tier):
                              "withheld"]),
         cand=st.sampled_from(["file-x", "file-x", "file-nox", "dir", "absent"]),
         zombie=st.sampled_from([False, False, False, False, True]),
+        # all calls made inside one `with p.oneshot():` block
+        oneshot=st.booleans(),
     ))
 
 
@@ -187,14 +189,18 @@ def run_case(case):
                 import traceback
                 raise Violation(name + "-exception", f"{e!r} " + traceback.format_exc()[-400:]) from None
 
-        call("cmdline", p.cmdline)
-        call("environ", p.environ)
-        call("exe", p.exe)
-        n0 = len(k.log)
-        call("exe2", p.exe)
-        n1 = len(k.log)
-        call("cwd", p.cwd)
-        call("name", p.name)
+        import contextlib
+        with (p.oneshot() if case.get("oneshot") else contextlib.nullcontext()):
+            call("cmdline", p.cmdline)
+            call("environ", p.environ)
+            call("exe", p.exe)
+            n0 = len(k.log)
+            call("exe2", p.exe)
+            n1 = len(k.log)
+            call("cwd", p.cwd)
+            call("name", p.name)
+        if case.get("oneshot"):
+            labels.add("inside-oneshot")
 
     # ---- cmdline
     kind, val = out["cmdline"]
